@@ -97,31 +97,38 @@ theorem bounds_of_allB {P : Version → Prop} {l : List Span} (h : ∀ sp ∈ l,
   · exact (h sp hsp).1 x (by simpa [Option.mem_toList] using hx)
   · exact (h sp hsp).2 x (by simpa [Option.mem_toList] using hx)
 
-/-! ### a decidable form of `SeamFree` over a finite list of bounds -/
+/-! ### a kernel-evaluable form of `SeamFree` over a finite list of bounds -/
 
-/-- `Seam s a b`, decidably. -/
-def seamB (s : System) (a b : Version) : Bool :=
-  a.pre.isEmpty && b.pre.isEmpty && decide (pt s a < pt s b) &&
+/-- `Seam s a b`, as a Boolean (for versions of system `s`). -/
+def seamB (a b : Version) : Bool :=
+  a.pre.isEmpty && b.pre.isEmpty && ltB a b &&
     (match (a.fill 0).inc with
-     | .ok m => !decide (pt s m < pt s b)
+     | .ok m => !ltB m b
      | _ => false)
 
-theorem seamB_of_seam {a b : Version} (h : Seam s a b) : seamB s a b = true := by
+theorem seamB_of_seam {a b : Version} (ha : VG s a) (hb : VG s b) (h : Seam s a b) : seamB a b = true := by
   obtain ⟨h1, h2, h3, m, hm, hmb⟩ := h
-  simp [seamB, h1, h2, h3, hm, hmb]
+  obtain ⟨m', hm', hmg⟩ := inc_fill_ok ha h1
+  rw [hm] at hm'; cases hm'
+  have e1 : ltB a b = true := (ltB_iff ha hb).mpr h3
+  have e2 : ltB m b = false := by
+    rw [← Bool.not_eq_true, ltB_iff hmg hb]; exact hmb
+  simp [seamB, h1, h2, e1, hm, e2]
 
 /-- `v` lies strictly inside no successor seam between two of the listed bounds. -/
 def noSeamB (s : System) (bs : List Version) (v : Version) : Bool :=
-  bs.all fun a => bs.all fun b => !(seamB s a b && decide (pt s a < pt s v) && decide (pt s v < pt s b))
+  decide (VG s v) && bs.all (fun a => decide (VG s a)) &&
+    bs.all fun a => bs.all fun b => !(seamB a b && ltB a v && ltB v b)
 
 theorem seamFree_of_noSeamB {bs : List Version} {v : Version} (h : noSeamB s bs v = true) :
     SeamFree s (· ∈ bs) v := by
   intro a b ha hb hseam ⟨h1, h2⟩
   unfold noSeamB at h
-  rw [List.all_eq_true] at h
-  have := h a ha
-  rw [List.all_eq_true] at this
-  have := this b hb
-  simp [seamB_of_seam hseam, h1, h2] at this
+  simp only [Bool.and_eq_true, decide_eq_true_eq, List.all_eq_true] at h
+  obtain ⟨⟨hv, hall⟩, h⟩ := h
+  have hga := hall a ha
+  have hgb := hall b hb
+  have := h a ha b hb
+  simp [seamB_of_seam hga hgb hseam, (ltB_iff hga hv).mpr h1, (ltB_iff hv hgb).mpr h2] at this
 
 end DepsDev.Proofs.C09
